@@ -1,4 +1,8 @@
 import Mimium.Proofs.Layout
+import Mimium.Proofs.FlatTreeTop
+import Mimium.Proofs.FlatTreeLabel
+import Mimium.Proofs.FlatTreeEval
+import Mimium.Proofs.FlatTreeVisits
 /-!
 # C05 — compile-time state layout matches run-time state accesses
 
@@ -9,6 +13,43 @@ EVERY layout: each access touches exactly the words of a leaf cell of the right 
 assigns to it, with that cell's size, inside the storage sized from the layout, and the cursor is back at 0.
 (The VM/WASM word-for-word comparison after every sample is done by the correspondence stage; the contract that
 makes it hold in bounds is `C01_prim_bisim`.)
+
+## flat storage = serialised state tree (second half of this file, namespace `Mimium.FlatTree`)
+
+`Model/FlatTree.lean` ties the state TREE of the reference semantics (`Core.SNode`) to the FLAT storage of the runtimes
+(`StateMachine.St`).  A bare skeleton `Sk` does not say which textual site owns which cell nor which shape `self` has, so
+the bridge is stated over LABELLED layouts `LNode` (cells carry their site, the `Feed` cell carries the shape of `self`);
+`LNode.sk` is the published skeleton and every well-formed skeleton is the erasure of a labelled layout
+(`C05_every_skeleton_labelled`).  `serialize lay st` reads the tree through the evaluator's own accessors
+(`memAt` / `ringAt` / `childAt`), so never-evaluated sites are zeros, like the zero-initialised storage.  Proved, for EVERY labelled
+layout with distinct sibling sites, every conforming tree, every operand payload, anywhere inside a larger storage:
+* `C05_serialize_size`, `C05_deserialize_serialize` (canonical trees), `C05_serialize_deserialize` (all word lists);
+* one cell at the offset `path_to_address` assigns to it (`C05_cell_offset_is_path_address`): `C05_flat_mem_eq_tree`,
+  `C05_flat_delay_eq_tree`, `C05_flat_cell_eq_tree` (any cell, including entering/leaving a child with push/pop),
+  `C05_flat_self_get`, `C05_flat_self_set`;
+* `C05_flat_eq_tree`: the state instructions of one whole call perform exactly the access sequence `expectedTrace lay.sk`,
+  all in bounds, return the cursor, and turn `serialize lay st` into `serialize lay st'` with `st'` the tree after the
+  evaluator's per-site operations, producing the same outputs; the result conforms again, so this iterates
+  (`C05_flat_run_eq_tree_run`, all run lengths);
+* `C05_same_words_same_behaviour`: trees with equal flat words are indistinguishable by any sequence of calls;
+* `C05_eval_mem_is_treeCell`, `C05_eval_delay_is_treeCell`, `C05_eval_call_is_treeCell`: the per-site tree operations
+  ARE the state operations of `Core.eval` (cases `mem`, `delay`, `call`).
+* `C05_eval_respects_agreement` (induction over the fuel, all 18 constructs of `Core.eval`, closures and assignment
+  included): for an expression whose stateful sites are COVERED by a labelled layout (`Covers`: every `mem` / `delay n` / call
+  site owns a cell of its kind, callee bodies covered by the child's cells), evaluation from two trees that agree on the
+  layout's cells gives the same value and store (or the same error) and agreeing trees; `C05_same_words_agree`: conforming
+  trees with the same flat words agree.  Hence `C05_same_words_same_eval_future`: the values a function instance returns,
+  sample after sample, are a function of its flat state words alone — the flat storage loses nothing the evaluator can see.
+* `C05_eval_state_effect_is_tree_ops` (induction over the fuel, all 18 constructs): for an expression that VISITS the
+  cells `seg` in this order, once each (`Visits`: operands before the operation, arguments left to right before the call,
+  stateless `if` arms), the state effect of `Core.eval` IS `treeCells seg ps` for the payload `ps` of operands the evaluation
+  computes; `C05_eval_instance_is_flat_call`: hence one sample of a function instance in the reference semantics (zero-init
+  of `self`, body, store the returned value) and the state instructions of the call on the flat storage commute with
+  `serialize` — the flat machine simulates the evaluator's state, access sequence `expectedTrace`, in bounds.
+NOT proved: that mirgen publishes, for each function, the cells its body visits in evaluation order (`Visits` / `Covers` are
+hypotheses relating a program to its published layout; mirgen is judged on the recorded traces by `conforms`; state inside
+`if` arms — finding F3 — violates `Visits` on the pinned tree), and that returned values have the word count of their `Feed`
+cell (`NPayOk`, a typing fact; soundness of the type checker is not proved, see C03).
 -/
 namespace Mimium.Layout
 open Mimium.StateTree
@@ -52,3 +93,309 @@ example :
   decide +kernel
 
 end Mimium.Layout
+
+namespace Mimium.FlatTree
+open Mimium.Core Mimium.Cells Mimium.StateTree Mimium.Layout Mimium.StateMachine
+
+/-- the serialised tree fills exactly the storage the VM sizes from the published skeleton (`total_size`) -/
+theorem C05_serialize_size (lay : LNode) (st : SNode) (h : Conforms lay st) :
+    (serialize lay st).length = lay.sk.size := by
+  rw [LNode.sk_size, serialize_length lay st h]
+
+/-- the published skeleton of a labelled layout is well formed (so `C05_conforming_trace_sound` applies to it) -/
+theorem C05_labelled_layout_WF (lay : LNode) : WF lay.sk = true := LNode.sk_WF lay
+
+/-- every well-formed skeleton of a function whose ring lengths fit a machine word is the erasure of a labelled
+layout with distinct sibling sites: the theorems below cover every published layout -/
+theorem C05_every_skeleton_labelled (cs : List Sk) (hw : WF (.fn cs) = true) (hf : SkFits (.fn cs)) :
+    (ofSk (.fn cs)).sk = .fn cs ∧ (ofSk (.fn cs)).Ok := ofSk_spec cs hw hf
+
+/-- reading a canonical tree (all cells present, in layout order) back from its words gives the same tree -/
+theorem C05_deserialize_serialize (lay : LNode) (st : SNode) (hl : lay.Ok) (h : Canon lay st) :
+    deserialize lay (serialize lay st) = st := deserialize_serialize lay st hl h
+
+/-- every word list of the layout's size is the serialisation of the (canonical, conforming) tree read from it -/
+theorem C05_serialize_deserialize (lay : LNode) (ws : List UInt64) (hl : lay.Ok) (hlen : ws.length = lay.sk.size) :
+    serialize lay (deserialize lay ws) = ws ∧ Canon lay (deserialize lay ws) ∧ Conforms lay (deserialize lay ws) := by
+  rw [LNode.sk_size] at hlen
+  have := serialize_deserialize lay ws hl hlen
+  exact ⟨this.1, this.2, canon_conforms lay _ hl this.2⟩
+
+/-- the offset at which the cell after `before` is executed is the address `path_to_address` computes for it on the
+published skeleton, with the cell's size -/
+theorem C05_cell_offset_is_path_address (self : Option Shape) (before : List LCell) (c : LCell) (after : List LCell) :
+    pathToAddress (LNode.sk ⟨self, before ++ c :: after⟩) [(feedOf self).length + before.length] =
+      some (selfSize self + sizeCells before, c.size) := cell_address self before c after
+
+/-- ANY cell of a node (mem, delay, or a whole child call: `PushStatePos off`, the child's instructions, `PopStatePos off`)
+executed at its layout offset: afterwards the storage is the serialisation of the tree after the evaluator's
+operation at that site (every other word unchanged), the outputs agree, the cursor is back, nothing left the storage -/
+theorem C05_flat_cell_eq_tree (self : Option Shape) (before : List LCell) (c : LCell) (after : List LCell) (p : CPay)
+    (st : SNode) (pre post : List UInt64)
+    (hl : LNode.Ok ⟨self, before ++ c :: after⟩) (hc : Conforms ⟨self, before ++ c :: after⟩ st) (hp : PayOk c p) :
+    vmRun ⟨pre.length, pre ++ serialize ⟨self, before ++ c :: after⟩ st ++ post⟩
+        ([.push (selfSize self + sizeCells before)] ++ flatCell c p ++ [.pop (selfSize self + sizeCells before)]) =
+      some (⟨pre.length, pre ++ serialize ⟨self, before ++ c :: after⟩ (treeCell c p st).1 ++ post⟩, (treeCell c p st).2)
+    ∧ Conforms ⟨self, before ++ c :: after⟩ (treeCell c p st).1 :=
+  flat_cell_at self before c after p st pre post hl hc hp
+
+/-- `mem`: the VM's `Mem` instruction at the cell's offset is `setCell site (.mem x)` on the tree and returns `memAt site` -/
+theorem C05_flat_mem_eq_tree (self : Option Shape) (before after : List LCell) (site : Nat) (x : UInt64)
+    (st : SNode) (pre post : List UInt64)
+    (hl : LNode.Ok ⟨self, before ++ .mem site :: after⟩) (hc : Conforms ⟨self, before ++ .mem site :: after⟩ st) :
+    vmRun ⟨pre.length, pre ++ serialize ⟨self, before ++ .mem site :: after⟩ st ++ post⟩
+        [.push (selfSize self + sizeCells before), .mem x, .pop (selfSize self + sizeCells before)] =
+      some (⟨pre.length, pre ++ serialize ⟨self, before ++ .mem site :: after⟩ (st.setCell site (.mem x)) ++ post⟩,
+            [st.memAt site]) := by
+  have := (flat_cell_at self before (.mem site) after (.mem x) st pre post hl hc (by simp [PayOk])).1
+  simpa [flatCell, treeCell] using this
+
+/-- `delay`: the VM's `Delay` instruction at the cell's offset is `Ringbuffer::process` on the site's ring -/
+theorem C05_flat_delay_eq_tree (self : Option Shape) (before after : List LCell) (site n : Nat) (x t : UInt64)
+    (st : SNode) (pre post : List UInt64)
+    (hl : LNode.Ok ⟨self, before ++ .delay site n :: after⟩) (hc : Conforms ⟨self, before ++ .delay site n :: after⟩ st) :
+    vmRun ⟨pre.length, pre ++ serialize ⟨self, before ++ .delay site n :: after⟩ st ++ post⟩
+        [.push (selfSize self + sizeCells before), .delay n x t, .pop (selfSize self + sizeCells before)] =
+      some (⟨pre.length, pre ++ serialize ⟨self, before ++ .delay site n :: after⟩
+              (st.setCell site (.delay ((st.ringAt n site).process x t).2)) ++ post⟩,
+            [((st.ringAt n site).process x t).1]) := by
+  have := (flat_cell_at self before (.delay site n) after (.delay x t) st pre post hl hc (by simp [PayOk])).1
+  simpa [flatCell, treeCell] using this
+
+/-- `GetState` at the start of the region returns the words of the stored `self` (zeros before the first call) -/
+theorem C05_flat_self_get (lay : LNode) (st : SNode) (pre post : List UInt64) (hc : Conforms lay st) :
+    vmStep ⟨pre.length, pre ++ serialize lay st ++ post⟩ (.get (selfSize lay.self)) =
+      some (⟨pre.length, pre ++ serialize lay st ++ post⟩, selfWords lay.self st) :=
+  flat_self_get lay st pre post hc
+
+/-- `SetState` at the start of the region is `setSelf` on the tree -/
+theorem C05_flat_self_set (lay : LNode) (st : SNode) (v : Val) (sh : Shape) (pre post : List UInt64)
+    (hs : lay.self = some sh) (hc : Conforms lay st) (hv : RetOk lay.self v) :
+    vmStep ⟨pre.length, pre ++ serialize lay st ++ post⟩ (.set (flattenVal v)) =
+      some (⟨pre.length, pre ++ serialize lay (st.setSelf v) ++ post⟩, []) ∧ Conforms lay (st.setSelf v) :=
+  flat_self_set lay st v sh pre post hs hc hv
+
+/-- **flat = serialised tree, one whole call.**  For every labelled layout with distinct sibling sites, every
+conforming tree, every payload of operands, and a region starting anywhere (`pre.length`) in a larger storage:
+the state instructions of the call (a) perform exactly the access sequence the published skeleton prescribes,
+(b) every access inside the region, (c) run without leaving the storage (`vmRun … = some …`), return the cursor, leave
+`pre`/`post` untouched and turn the words `serialize lay st` into `serialize lay st'`, where `st'` is the tree after the
+evaluator's per-site operations, with the same outputs, and (d) `st'` conforms again. -/
+theorem C05_flat_eq_tree (lay : LNode) (pay : NPay) (st : SNode) (pre post : List UInt64)
+    (hl : lay.Ok) (hc : Conforms lay st) (hp : NPayOk lay pay) :
+    accessesOf pre.length (flatNode lay pay) = expectedTrace lay.sk pre.length ∧
+    (∀ a ∈ expectedTrace lay.sk pre.length,
+      pre.length ≤ a.pos ∧ a.pos + a.size ≤ pre.length + (serialize lay st).length) ∧
+    vmRun ⟨pre.length, pre ++ serialize lay st ++ post⟩ (flatNode lay pay) =
+      some (⟨pre.length, pre ++ serialize lay (treeNode lay pay st).1 ++ post⟩, (treeNode lay pay st).2) ∧
+    Conforms lay (treeNode lay pay st).1 := by
+  have h := flat_node lay pay st pre post hl hc hp
+  refine ⟨(acc_node lay pay pre.length hp).1, ?_, h.1, h.2⟩
+  rw [C05_serialize_size lay st hc]
+  exact C05_expected_in_bounds lay.sk pre.length (LNode.sk_WF lay)
+
+/-- the statement of the task: the region is the whole storage, cursor 0 before and after -/
+theorem C05_flat_eq_tree_root (lay : LNode) (pay : NPay) (st : SNode)
+    (hl : lay.Ok) (hc : Conforms lay st) (hp : NPayOk lay pay) :
+    accessesOf 0 (flatNode lay pay) = expectedTrace lay.sk 0 ∧
+    (∀ a ∈ expectedTrace lay.sk 0, a.pos + a.size ≤ (serialize lay st).length) ∧
+    vmRun ⟨0, serialize lay st⟩ (flatNode lay pay) =
+      some (⟨0, serialize lay (treeNode lay pay st).1⟩, (treeNode lay pay st).2) ∧
+    Conforms lay (treeNode lay pay st).1 := by
+  have h := C05_flat_eq_tree lay pay st [] [] hl hc hp
+  simp only [List.length_nil, List.nil_append, List.append_nil, Nat.zero_add] at h
+  exact ⟨h.1, fun a ha => (h.2.1 a ha).2, h.2.2.1, h.2.2.2⟩
+
+/-- any number of calls in a row (one per sample): the flat machine started on the serialised tree never leaves
+its storage and produces, call by call, the outputs of the tree semantics -/
+theorem C05_flat_run_eq_tree_run (lay : LNode) (pays : List NPay) (st : SNode) (pre post : List UInt64)
+    (hl : lay.Ok) (hc : Conforms lay st) (hp : ∀ p ∈ pays, NPayOk lay p) :
+    flatRun lay pays ⟨pre.length, pre ++ serialize lay st ++ post⟩ = some (treeRun lay pays st) :=
+  flat_run lay hl pays st pre post hc hp
+
+/-- two trees with the same flat words (e.g. a tree and the one read back from a migrated storage) are
+indistinguishable: every sequence of calls, with whatever operands, yields the same outputs -/
+theorem C05_same_words_same_behaviour (lay : LNode) (pays : List NPay) (st₁ st₂ : SNode)
+    (hl : lay.Ok) (h1 : Conforms lay st₁) (h2 : Conforms lay st₂) (hp : ∀ p ∈ pays, NPayOk lay p)
+    (hw : serialize lay st₁ = serialize lay st₂) : treeRun lay pays st₁ = treeRun lay pays st₂ := by
+  have e1 := flat_run lay hl pays st₁ [] [] h1 hp
+  have e2 := flat_run lay hl pays st₂ [] [] h2 hp
+  rw [hw, e2] at e1
+  exact (Option.some.inj e1).symm
+
+/-- the tree operation at a `mem` site IS the evaluator's `mem` case -/
+theorem C05_eval_mem_is_treeCell (fuel : Nat) (P : Prog) (rt : Rt) (env : Env) (a : Expr) (site : Nat)
+    (σ σ' : Store) (st st' : SNode) (x : UInt64) (h : eval fuel P rt env a σ st = .ok (.num x, σ', st')) :
+    eval (fuel + 1) P rt env (.mem a site) σ st =
+      .ok (.num ((treeCell (.mem site) (.mem x) st').2.headD 0), σ', (treeCell (.mem site) (.mem x) st').1) := by
+  simp [eval, h, treeCell]
+
+/-- the tree operation at a `delay` site IS the evaluator's `delay` case -/
+theorem C05_eval_delay_is_treeCell (fuel : Nat) (P : Prog) (rt : Rt) (env : Env) (a t : Expr) (n site : Nat)
+    (σ σ1 σ2 : Store) (st st1 st2 : SNode) (x tm : UInt64)
+    (ha : eval fuel P rt env a σ st = .ok (.num x, σ1, st1))
+    (ht : eval fuel P rt env t σ1 st1 = .ok (.num tm, σ2, st2)) :
+    eval (fuel + 1) P rt env (.delay n a t site) σ st =
+      .ok (.num ((treeCell (.delay site n) (.delay x tm) st2).2.headD 0), σ2,
+           (treeCell (.delay site n) (.delay x tm) st2).1) := by
+  simp [eval, ha, ht, treeCell]
+
+/-- the tree operation at a call site IS the evaluator's `call` case, given that the callee's body acts on the
+child instance as the child's cells prescribe (the part that is mirgen's bookkeeping and is not proved) -/
+theorem C05_eval_call_is_treeCell (fuel : Nat) (P : Prog) (rt : Rt) (env : Env) (f : String) (args : List Expr)
+    (site : Nat) (σ σ1 σ2 : Store) (st st1 : SNode) (vs : List Val) (d : FnDecl) (cells : List LCell) (ps : List CPay)
+    (v : Val) (child' : SNode)
+    (hargs : evalList fuel P rt env args σ st = .ok (vs, σ1, st1))
+    (hf : findFn P.fns f = some d) (hn : d.params.length = vs.length)
+    (hbody : eval fuel P rt (bindAll (globalEnv P) σ1 d.params vs).1 d.body (bindAll (globalEnv P) σ1 d.params vs).2
+        (initSelf d.selfShape (st1.childAt site)) = .ok (v, σ2, child'))
+    (hcells : child' = (treeCells cells ps (initSelf d.selfShape (st1.childAt site))).1) :
+    eval (fuel + 1) P rt env (.call f args site) σ st =
+      .ok (v, σ2, (treeCell (.child site d.selfShape cells) (.child v ps) st1).1) := by
+  subst hcells
+  simp only [eval, hargs, hf, hn, bne_self_eq_false, Bool.false_eq_true, if_false]
+  rw [show bindAll (globalEnv P) σ1 d.params vs =
+    ((bindAll (globalEnv P) σ1 d.params vs).1, (bindAll (globalEnv P) σ1 d.params vs).2) from rfl]
+  cases hsv : (st1.childAt site).selfv <;> cases hsh : d.selfShape <;>
+    simp only [initSelf, hsv, hsh] at hbody <;>
+    simp [hbody, treeCell, treeNodeWith, initSelf, hsv]
+
+/-- **the evaluator cannot tell agreeing trees apart.**  For every program, every expression covered by the layout
+cells (`Covers`), every fuel, environment, store: evaluation from two trees with the same `self` that agree on every
+cell of the layout (`AgreeN`: same `memAt`, `ringAt`, recursively agreeing children) yields the same error, or the
+same value, the same store and agreeing trees -/
+theorem C05_eval_respects_agreement (P : Prog) (rt : Rt) (fuel : Nat) (e : Expr) (cells : List LCell) (env : Env)
+    (σ : Store) (st₁ st₂ : SNode) (hl : LayOkL cells) (hc : Covers P cells e) (hag : AgreeN cells st₁ st₂) :
+    SRel (RE cells) (eval fuel P rt env e σ st₁) (eval fuel P rt env e σ st₂) :=
+  (eval_agree P rt fuel).1 e cells env σ st₁ st₂ hl hc hag
+
+/-- trees that conform to a layout (with `self` values of the declared shapes) and serialise to the same words agree:
+the flat words determine everything the evaluator's accessors can read -/
+theorem C05_same_words_agree (lay : LNode) (a b : SNode) (ha : ConformsS lay a) (hb : ConformsS lay b)
+    (h : serialize lay a = serialize lay b) : Agree lay a b := agree_of_words lay a b ha hb h
+
+/-- the values a function instance returns, sample after sample (`instRun`: zero-initialise `self`, evaluate the body,
+store the returned value — what `eval`'s `call` and `Machine.step` do), depend only on the instance's flat state words:
+any run length, whatever time / environment / store each sample supplies -/
+theorem C05_same_words_same_eval_future (fuel : Nat) (P : Prog) (lay : LNode) (body : Expr)
+    (samples : List (Rt × Env × Store)) (a b : SNode)
+    (hl : lay.Ok) (hc : Covers P lay.cells body) (ha : ConformsS lay a) (hb : ConformsS lay b)
+    (h : serialize lay a = serialize lay b) :
+    instRun fuel P lay.self body samples a = instRun fuel P lay.self body samples b :=
+  instRun_agree fuel P lay body hl hc samples a b (agree_of_words lay a b ha hb h)
+
+/-- **the evaluator's state effect is the per-site tree operations.**  If `e` visits the cells `seg` in this order
+(`Visits`), a successful evaluation changes the state of the current function instance exactly as `treeCells seg ps` does,
+for some payload `ps` shaped like `seg` (the operands the evaluation computed) -/
+theorem C05_eval_state_effect_is_tree_ops (P : Prog) (rt : Rt) (fuel : Nat) (e : Expr) (seg : List LCell) (env : Env)
+    (σ : Store) (st : SNode) (v : Val) (σ' : Store) (st' : SNode)
+    (hv : Visits P e seg) (h : eval fuel P rt env e σ st = .ok (v, σ', st')) :
+    ∃ ps, PayShapeL seg ps ∧ st' = (treeCells seg ps st).1 :=
+  (eval_visits P rt fuel).1 e seg env σ st v σ' st' hv h
+
+/-- **one sample of a function instance: reference evaluator = flat machine.**  Let the body visit the cells of the
+labelled layout in order.  One sample in the reference semantics (`self` zero-initialised if absent, body evaluated
+against the instance's tree `st`, returned value stored as the new `self` — `eval`'s `call`, `Machine.step`) leaves the tree
+`finSelf lay.self st1 v`; this is `treeNode` for the payload the evaluation computed, and — provided the returned values
+have the word counts of their `Feed` cells — the state instructions of the call, run on the flat image of `st` anywhere
+in a larger storage, perform exactly `expectedTrace lay.sk`, stay in bounds and leave the flat image of that next tree,
+which conforms again (so the statement iterates over samples) -/
+theorem C05_eval_instance_is_flat_call (fuel : Nat) (P : Prog) (rt : Rt) (env : Env) (σ : Store) (lay : LNode)
+    (body : Expr) (st : SNode) (v : Val) (σ' : Store) (st1 : SNode)
+    (hl : lay.Ok) (hc : Conforms lay st) (hvis : Visits P body lay.cells)
+    (h : eval fuel P rt env body σ (initSelf lay.self st) = .ok (v, σ', st1)) :
+    ∃ ps, PayShapeL lay.cells ps ∧ finSelf lay.self st1 v = (treeNode lay ⟨v, ps⟩ st).1 ∧
+      (NPayOk lay ⟨v, ps⟩ → ∀ pre post : List UInt64,
+        vmRun ⟨pre.length, pre ++ serialize lay st ++ post⟩ (flatNode lay ⟨v, ps⟩) =
+          some (⟨pre.length, pre ++ serialize lay (finSelf lay.self st1 v) ++ post⟩, (treeNode lay ⟨v, ps⟩ st).2) ∧
+        accessesOf pre.length (flatNode lay ⟨v, ps⟩) = expectedTrace lay.sk pre.length ∧
+        Conforms lay (finSelf lay.self st1 v)) := by
+  obtain ⟨ps, hp, he⟩ := treeNode_of_eff lay st v st1 ((eval_visits P rt fuel).1 body _ env σ _ v σ' st1 hvis h)
+  refine ⟨ps, hp, he, fun hpay pre post => ?_⟩
+  have := C05_flat_eq_tree lay ⟨v, ps⟩ st pre post hl hc hpay
+  rw [he]
+  exact ⟨this.2.2.1, this.1, this.2.2.2⟩
+
+/-! non-vacuity of `Visits`: the body `self + (mem(x) + f(delay(3, x, 1)))` with `f(y) = mem(y)` visits
+`[mem 0, delay 1 3, child 2 [mem 0]]` -/
+example :
+    let P : Prog := ⟨[], [⟨"f", ["y"], .mem (.var "y") 0, none⟩], ⟨"dsp", ["x"], .lit 0, none⟩⟩
+    let body : Expr := .bin .add .self (.bin .add (.mem (.var "x") 0) (.call "f" [.delay 3 (.var "x") (.lit 1) 1] 2))
+    Visits P body [.mem 0, .delay 1 3, .child 2 none [.mem 0]] := by
+  intro P body
+  have hf : ∀ d, findFn P.fns "f" = some d → d = ⟨"f", ["y"], .mem (.var "y") 0, none⟩ := by
+    intro d hd; simp [P, findFn] at hd; exact hd.symm
+  have h : Visits P body ([] ++ (([] ++ [.mem 0]) ++ ((([] ++ [] ++ [.delay 1 3]) ++ []) ++ [.child 2 none ([] ++ [.mem 0])]))) :=
+    .bin .self (.bin (.mem .var) (.call (.cons (.delay .var .lit) .nil)
+      (fun d hd => by rw [hf d hd]) (fun d hd => by rw [hf d hd]; exact .mem .var)))
+  simpa using h
+
+/-! non-vacuity of the three theorems above: a body `self + mem(x) + f(delay(3, x, 1))` with `f(y) = mem(y)`,
+covered by the layout `[mem 0, delay 1 3, child 2 [mem 0]]`; the empty tree and the all-zero canonical tree are
+different trees that conform and have the same words -/
+example :
+    let P : Prog := ⟨[], [⟨"f", ["y"], .mem (.var "y") 0, none⟩], ⟨"dsp", ["x"], .lit 0, none⟩⟩
+    let body : Expr := .bin .add .self (.bin .add (.mem (.var "x") 0) (.call "f" [.delay 3 (.var "x") (.lit 1) 1] 2))
+    let lay : LNode := ⟨some .num, [.mem 0, .delay 1 3, .child 2 none [.mem 0]]⟩
+    lay.Ok ∧ Covers P lay.cells body ∧ ConformsS lay SNode.empty ∧ ConformsS lay (deserialize lay (serialize lay SNode.empty)) ∧
+    serialize lay SNode.empty = serialize lay (deserialize lay (serialize lay SNode.empty)) := by
+  intro P body lay
+  have hl : lay.Ok := by simp [lay, LNode.Ok, LayOkL, LayOk, sitesOf, LCell.site]
+  have hcov : Covers P lay.cells body := by
+    refine .bin .self (.bin (.mem .var (by simp [lay])) (.call (self := none) (cells' := [.mem 0]) ?_ (by simp [lay]) ?_ ?_))
+    · intro e he
+      simp only [List.mem_singleton] at he
+      subst he
+      exact .delay .var .lit (by simp [lay])
+    · intro d hd
+      simp [P, findFn] at hd
+      subst hd; rfl
+    · intro d hd
+      simp [P, findFn] at hd
+      subst hd
+      exact .mem .var (by simp)
+  have hc0 : ConformsS lay SNode.empty := by
+    refine ⟨?_, ?_⟩
+    · intro v hv; simp [SNode.empty, SNode.selfv] at hv
+    · simp [lay, ConfSL, ConfS, SelfOkS, SNode.empty, SNode.childAt, SNode.ringAt, SNode.cells, SNode.selfv, lookupCell,
+        Ring.zero]
+  have hlen : (serialize lay SNode.empty).length = lay.size := serialize_length lay _ (conformsS_conforms _ _ hc0)
+  have hr := serialize_deserialize lay _ hl hlen
+  exact ⟨hl, hcov, hc0, canon_conformsS lay _ hl hr.2, hr.1.symm⟩
+
+/-! non-vacuity: a layout with a tuple-valued `self`, a mem, a nested stateful call with scalar `self`, a delay and a
+mem, and a stateless-self child; the hypotheses hold for the empty tree and a payload, and the call does what the
+theorem says (second call, so that the state is not all zeros) -/
+example :
+    let lay : LNode := ⟨some (.tup [.num, .num]), [.mem 7, .child 3 (some .num) [.delay 4 3, .mem 9], .child 11 none [.mem 2]]⟩
+    let pay : NPay := ⟨.tup [.num 100, .num 101], [.mem 42, .child (.num 77) [.delay 55 0, .mem 43], .child (.num 0) [.mem 44]]⟩
+    lay.Ok ∧ Conforms lay SNode.empty ∧ NPayOk lay pay := by
+  refine ⟨?_, ⟨?_, ?_⟩, ?_⟩
+  · simp [LNode.Ok, LayOkL, LayOk, sitesOf, LCell.site]
+  · intro v hv; simp [SNode.empty, SNode.selfv] at hv
+  · simp [ConfL, Conf, SelfOk, SNode.empty, SNode.childAt, SNode.ringAt, SNode.cells, SNode.selfv, lookupCell, Ring.zero]
+  · simp [NPayOk, RetOk, PayOkL, PayOk, flattenVal, flattenVals, shapeSize, shapeSizeL]
+
+example :
+    let lay : LNode := ⟨some (.tup [.num, .num]), [.mem 7, .child 3 (some .num) [.mem 9], .child 11 none [.mem 2]]⟩
+    let pay : NPay := ⟨.tup [.num 100, .num 101], [.mem 42, .child (.num 77) [.mem 43], .child (.num 0) [.mem 44]]⟩
+    let st1 := (treeNode lay pay SNode.empty).1
+    serialize lay st1 = [100, 101, 42, 77, 43, 44] ∧
+    vmRun ⟨0, serialize lay st1⟩ (flatNode lay pay) = some (⟨0, [100, 101, 42, 77, 43, 44]⟩, [100, 101, 42, 77, 43, 44]) ∧
+    accessesOf 0 (flatNode lay pay) = expectedTrace lay.sk 0 := by
+  decide +kernel
+
+/-! non-vacuity of `C05_every_skeleton_labelled` and of the round trips: the skeleton of the first example of this
+file is well formed with word-sized rings; the tree read from any 10 words is canonical -/
+example :
+    let cs := [Sk.fn [.feed 2, .mem 1], .delay 3, .fn [.feed 1, .fn [.mem 1]]]
+    WF (.fn cs) = true ∧ SkFits (.fn cs) ∧ (ofSk (.fn cs)).size = 10 ∧
+    Canon (ofSk (.fn cs)) (deserialize (ofSk (.fn cs)) [1, 2, 3, 4, 5, 6, 7, 8, 9, 10]) := by
+  intro cs
+  have hw : WF (.fn cs) = true := by decide +kernel
+  have hf : SkFits (.fn cs) := by simp [cs, SkFits, SkFitsL]
+  have hs : (ofSk (.fn cs)).size = 10 := by decide +kernel
+  have hsk := C05_every_skeleton_labelled cs hw hf
+  exact ⟨hw, hf, hs, (C05_serialize_deserialize _ _ hsk.2 (by rw [LNode.sk_size, hs]; rfl)).2.1⟩
+
+end Mimium.FlatTree
